@@ -21,7 +21,8 @@ BRANCHES = {'beq', 'bne', 'blt', 'bge', 'bltu', 'bgeu', 'beqz', 'bnez', 'blez', 
             'bgt', 'ble', 'bgtu', 'bleu'}
 SEQ_SIZE = {'bytes': 1, 'shorts': 2, 'ints': 4, 'longs': 4, 'longlongs': 8}
 SH_SIZE = {'db': 1, 'dh': 2, 'dw': 4, 'dd': 8}
-LABEL_RE = re.compile(r'\b(L\d+)\b')
+# label names of the templates: L<n>, and a2 / s2 (labels spelled like registers; never used as registers in a template)
+LABEL_RE = re.compile(r'\b(L\d+|a2|s2)\b')
 
 
 def classify(src):
